@@ -38,7 +38,7 @@ def wf_constraints(J):
         for k in range(J.nl):
             cs.append(J.llq[k] <= J.lt[k])
             cs.append(J.lt[k] <= J.luq[k])
-    return cs
+    return [c if z3.is_expr(c) else z3.BoolVal(bool(c)) for c in cs]
 
 
 def repo_site(exc):
@@ -73,7 +73,10 @@ def analyse(task):
     res = {'obligations': 0, 'discharged': 0, 'unknown': 0, 'cex': [], 'queries': 0,
            'solver_time': 0.0, 'paths': 0, 'nontrivial': 0, 'controls': {}}
     E = S.Engine(max_paths=64, timeout=120)
-    paths = E.explore(lambda: e2.run_e2(I, flags, seq, argv_seq=task.get('argv_seq')))
+    numerics = None
+    if task.get('num'):
+        numerics = (I.with_numerics(*task['num']), [], [])
+    paths = E.explore(lambda: e2.run_e2(I, flags, seq, argv_seq=task.get('argv_seq'), numerics=numerics))
     res['paths'] = len(paths)
     res['queries'] += E.stats['solver_queries']
     res['solver_time'] += E.stats['solver_time']
@@ -134,7 +137,7 @@ def analyse(task):
                 site = repo_site(p.exc)
                 # a concrete witness of the path condition
                 r, m = ask(list(p.pc), 'pc')
-                J, _, _ = e2.sym_numerics(I)
+                J, _, _ = numerics if numerics is not None else e2.sym_numerics(I)
                 data = dict(base)
                 if r == 'sat':
                     data.update(_model_data(J, m))
